@@ -243,17 +243,21 @@ def build(variant="san", quiet=True):
     fcntl.flock(lock, fcntl.LOCK_EX)
     try:
         if (B / "OK").exists():
+            try:
+                os.utime(B)         # in use: keeps it clear of the clean-up below, whoever runs that
+            except OSError:
+                pass
             return B / "bin"
         t0 = time.time()
         if B.exists():
             shutil.rmtree(B)
         # drop stale builds of this variant, but not ones another run (another tree: a seeded change in a scratch
         # worktree, a check started before an edit) may still be executing: only what is older than 8 hours, or
-        # beyond the 10 most recent ones
+        # beyond the 40 most recent ones (a build is touched every time a run picks it up)
         olds = sorted((o for o in BUILD_ROOT.glob(variant + "-*") if o != B and o.is_dir()),
                       key=lambda o: o.stat().st_mtime, reverse=True)
         for i, old in enumerate(olds):
-            if i >= 10 or time.time() - old.stat().st_mtime > 8 * 3600:
+            if i >= 40 or time.time() - old.stat().st_mtime > 8 * 3600:
                 shutil.rmtree(old, ignore_errors=True)
         B.mkdir(parents=True)
         try:
